@@ -131,7 +131,10 @@ def run(ctx):
         ctx.broke("correspondence", "SolverKernels.v vs drv_solve records (%s)" % ",".join(kinds),
                   json.dumps({"first_disagreeing_case": terms[failing[0]], "kind": kind, "request": rq.describe(), "n_disagreements": len(failing)}))
     # whole-loop tie for PANOC: verified model (Panoc.v) vs the real solver on whole runs
-    from vf.props import PANOC
-    PANOC.attach(ctx)
+    from vf.props import PANOC, PANTR
+    def on_run(cs, o):
+        return [(sig, msg) for sig, msg, _ in oracle(cs.rq, o)]
+    PANOC.attach(ctx, extra_oracle=on_run)
+    PANTR.attach(ctx, extra_oracle=on_run)
     from vf.props import ZEROFPR
-    ZEROFPR.attach(ctx)
+    ZEROFPR.attach(ctx, extra_oracle=on_run)
